@@ -107,6 +107,28 @@ def programs(tier):
     prog = prelude() + [("macrodef", "m", ["a"], [("raw", ".db a")]), ("macrodef", "w", ["c"], [("splice", "c"), ("raw", "rts")]),
                         ("call", "w", [("code", [("raw", "l2:"), ("call", "m", [("expr", "k0")]), ("raw", ".dl l2")])])] + postlude()
     out.append(("code-with-call", prog))
+    # an integer parameter named like the code-block parameter of the macro whose code argument applies it
+    prog = prelude() + [("macrodef", "w", ["code"], [("splice", "code"), ("raw", "rts")]), ("macrodef", "m", ["code"], [("raw", ".db code"), ("raw", ".dw code + k0")]),
+                        ("call", "w", [("code", [("call", "m", [("expr", "5")]), ("call", "m", [("expr", "k1")])])]), ("call", "m", [("expr", "7")])] + postlude()
+    out.append(("code-param-name-reused-as-int", prog))
+    prog = prelude() + [("macrodef", "w", ["a", "code"], [("raw", ".db a"), ("splice", "code")]), ("macrodef", "m", ["code", "a"], [("raw", ".db code, a")]),
+                        ("call", "w", [("expr", "k0"), ("code", [("call", "m", [("expr", "a"), ("expr", "k1")])])])] + postlude()
+    out.append(("code-param-name-reused-swapped", prog))
+    # a code block spliced several times that re-assigns a variable it reads
+    for n in (2, 3):
+        prog = prelude() + [("macrodef", "rep", ["step"], [("splice", "step")] * n + [("raw", ".db 0x99")]), ("raw", "n := 1"),
+                            ("call", "rep", [("code", [("raw", "n := n * 2"), ("raw", ".db n")])]), ("raw", ".db n")] + postlude()
+        out.append((f"splice-reassign/x{n}", prog))
+    prog = prelude() + [("macrodef", "rep", ["step"], [("splice", "step"), ("raw", "q := 7"), ("splice", "step")]), ("raw", "q := 1"),
+                        ("call", "rep", [("code", [("raw", ".db q + k0"), ("raw", ".dw q + k0")])])] + postlude()
+    out.append(("splice-same-expression-different-value", prog))
+    # a macro applied inside its own code-block argument
+    prog = prelude() + [("macrodef", "framed", ["c"], [("raw", ".db 0xF0"), ("splice", "c"), ("raw", ".db 0xF1")]),
+                        ("call", "framed", [("code", [("raw", ".db 1"), ("call", "framed", [("code", [("raw", ".db 2")])]), ("raw", ".db 3")])])] + postlude()
+    out.append(("self-in-own-code/noargs", prog))
+    prog = prelude() + [("macrodef", "framed", ["a", "c"], [("raw", ".db a"), ("splice", "c"), ("raw", ".dw a")]),
+                        ("call", "framed", [("expr", "k0"), ("code", [("call", "framed", [("expr", "k0"), ("code", [("call", "framed", [("expr", "k0"), ("code", [("raw", "nop")])])])])])])] + postlude()
+    out.append(("self-in-own-code/same-args", prog))
     # recursion terminated by .if
     for depth in (0, 1, 3):
         prog = prelude() + [("macrodef", "rec", ["n"], [("if", "n", [("raw", ".db n"), ("call", "rec", [("expr", "n - 1")])], None)]),
